@@ -29,8 +29,8 @@ ASSUMPTIONS = [
     "the voxel corners (global_corners_voxels) are the authoritative advertisement; physical corners must be their image under the base coordinate system",
 ]
 FLOORS = {
-    "quick": {"integer_typed_geometry": 300, "patch_content_replaced": 150, "base_converted_before_patching": 400, "patched_again_after_move": 400, "assemble_equals_base": 1500, "interiors_partition": 1500, "patch_is_advertised_subimage": 12000, "corners_voxel_vs_physical": 12000},
-    "thorough": {"integer_typed_geometry": 3000, "patch_content_replaced": 1500, "base_converted_before_patching": 4000, "patched_again_after_move": 4000, "assemble_equals_base": 15000, "interiors_partition": 15000, "patch_is_advertised_subimage": 100000, "corners_voxel_vs_physical": 50000},
+    "quick": {"caller_goes_on_working": 300, "integer_typed_geometry": 300, "patch_content_replaced": 150, "base_converted_before_patching": 400, "patched_again_after_move": 400, "assemble_equals_base": 1500, "interiors_partition": 1500, "patch_is_advertised_subimage": 12000, "corners_voxel_vs_physical": 12000},
+    "thorough": {"caller_goes_on_working": 3000, "integer_typed_geometry": 3000, "patch_content_replaced": 1500, "base_converted_before_patching": 4000, "patched_again_after_move": 4000, "assemble_equals_base": 15000, "interiors_partition": 15000, "patch_is_advertised_subimage": 100000, "corners_voxel_vs_physical": 50000},
 }
 OVERLAPS = [0.0, 0.1, 0.25, 0.5]
 
@@ -233,9 +233,14 @@ def _one(R, darsia, rng, cur, shape, cnt, ov, case_no):
                 R.count("integer_typed_geometry")
             arr = rng.integers(0, 255, size=shape + ((3,) if payload == "colour" else ()), dtype=np.uint8)
             kw = dict(space_dim=2, dimensions=list(dims), scalar=(payload == "scalar"))
+            own_origin = None
             if origin is not None:
                 kw["origin"] = origin
+                if case_no % 4 == 1:
+                    own_origin = np.array([float(x) for x in origin])  # the caller's own array, re-used later on
+                    kw["origin"] = own_origin
             base = darsia.Image(arr, **kw)
+            base_origin0 = np.asarray(base.origin, float).copy()
             # history of the base image before it is patched: converted to another dtype (its original_dtype stays)
             conv = [None, None, "img_as(float)", None, "astype(float32)", None, "img = img / 255"][case_no % 7]
             if conv == "img_as(float)":
@@ -258,6 +263,22 @@ def _one(R, darsia, rng, cur, shape, cnt, ov, case_no):
                 R.check(list(P.num_patches) == list(cnt), "patch_counts_kept", {**cur, "num_patches_after_caller_changed_its_list": list(P.num_patches)})
                 R.guarded("assemble", lambda: P.assemble())
             R.check(np.array_equal(base.img, arr), "base_unchanged", dict(cur))
+            # the caller goes on working: his origin array is advanced in place for the next tile, and the assembled
+            # image is moved in place; the patched image and what its Patches object advertises stay where they were
+            if own_origin is not None or case_no % 4 == 3:
+                with contextlib.redirect_stdout(io.StringIO()):
+                    ok_a, asm_ = R.guarded("assemble", lambda: P.assemble())
+                if own_origin is not None:
+                    own_origin += np.array([float(dims[1]), 0.0])
+                if ok_a and isinstance(asm_.origin, np.ndarray):
+                    asm_.origin += np.asarray(3, dtype=asm_.origin.dtype)  # (integer-typed origins stay integer-typed)
+                keep_w = cur.get("what")
+                cur["what"] = "re-judged after the caller moved his origin array / the assembled image in place"
+                judge_patches(R, P, dict(cur))
+                R.check(np.allclose(np.asarray(base.origin, float), np.asarray(origin if origin is not None else base_origin0, float), rtol=0, atol=0), "base_stays_in_place",
+                        lambda: {**cur, "base_origin_now": np.asarray(base.origin, float).tolist()})
+                R.count("caller_goes_on_working")
+                cur.pop("what", None) if keep_w is None else cur.update({"what": keep_w})
             # one patch gets new content (set_image): re-assembly is the base image with that patch's interior replaced;
             # the base image itself and the other patches keep their content
             if case_no % 5 == 2:
